@@ -97,3 +97,17 @@ func init() {
 		Thorough:    plan{Builds: []buildCfg{{Race: true, Share: 3}, {Race: true, Tags: []string{"protolegacy"}, Share: 1}, {Race: false, Share: 1}}, Secs: 900},
 	}
 }
+
+func init() {
+	props["C14"] = &propCfg{
+		Level:       "exploration",
+		Rule:        "a scenario is a seeded history over 2-4 message slots and a pool of harness-owned buffers: Unmarshal (lazy / eager / DiscardUnknown / Merge) from an owned buffer, protodelim.UnmarshalFrom off a bufio.Reader, Clone, Merge, then at seeded later instants the faults (owner overwrites or reuses an input buffer, mutates a source message in place, the reader goes on reading) and observations; expected content is tracked as deterministic bytes computed from private copies only; non-trivial = at least one scribble or owner mutation fired; distinct by hash of (type, operation sequence)",
+		Assumptions: append([]string{"deterministic Marshal bytes identify message content (decode(det(m)) re-marshals to det(m))", "in-place modification of a message's own byte slices is something an owner may do"}, commonAssumptions...),
+		Components:  comps("the owners of buffers and source messages (the harness decides when they overwrite their memory)"),
+		Clauses:     "overwriting the input buffer after Unmarshal (lazy or eager) does not change the message; Clone shares no mutable state; after Merge(dst, src) mutating src does not change dst; protodelim messages do not alias the reader's buffer; additionally no byte slice of a message overlaps a caller-owned buffer or another slot's slice (address-range check)",
+		Probes:      []string{"lazy-decodes-before-scribble", "clones", "merges", "frames-through-bufio"},
+		FaultKinds:  []string{"scribble", "owner-mutation", "reader-buffer-reused"},
+		Quick:       plan{Builds: []buildCfg{{Race: false, Share: 1}}, Secs: 25},
+		Thorough:    plan{Builds: []buildCfg{{Race: false, Share: 3}, {Race: false, Tags: []string{"protoopaque"}, Share: 1}, {Race: false, Tags: []string{"protolegacy"}, Share: 1}}, Secs: 600},
+	}
+}
